@@ -7,6 +7,7 @@ import vlib
 from vlib import hexs
 import gen_sem
 import scope_corr
+import rules_corr
 
 NEED_BIN = False
 MANIFEST_ENTRY = {
@@ -21,11 +22,16 @@ MANIFEST_ENTRY = {
             "library exactly when every unit uses only its own name and names declared in that unit before the use, case-"
             "insensitively, and with one faulty unit reports that unit's first undeclared use (model of symbol_table.rs + the rule's "
             "visitor, compared with the rule itself on the resolved library of every generated unit through the `verif` feature "
-            "hook). The other seven rules (enumeration "
-            "values, types, function-block invocations, task references, CONSTANT rules, external constants) are NOT proved: they "
-            "are decided by planting each documented fault at every site of generated valid programs (both directions: valid units "
-            "must be accepted with no code, each single fault must be rejected with its code). The rule models are compared with the "
-            "implementation on every generated structure / enumeration / subrange.",
+            "hook). The rules on declarations, invocations and configurations (P0016 constants initialised, P0017 no constant "
+            "function block instance, P0018 externals of constant globals, P0011 task references, P0012-14 enumerated initial "
+            "values through alias chains, P0006-9 / P0021 invocations against the callee's inputs, edge inputs and outputs, "
+            "P0029 unsupported standard blocks) are modelled as functions of the facts of the resolved library and proved exact "
+            "against declarative readings (accepted iff ...), with the alias walk's termination; each model is run against its "
+            "rule module alone on the facts of every generated library (same codes at the same places, in order) and reports "
+            "only problems the module names (regenerated table). NOT proved: that undeclared types are diagnosed (the late-bound "
+            "transformations are not modelled); and the whole-pipeline claim (parse, sort, resolve, all rules together), which is "
+            "decided by planting each documented fault at every site of generated valid programs (both directions: valid units "
+            "must be accepted with no code, each single fault must be rejected with its code).",
     "note": "Trusted: Coq kernel, translator (stage lists, shape of semantic()/resolve_types()), extraction + driver, harness op "
             "analyze, tools/gen_sem.py (its claim 'this unit is valid / breaks exactly rule r' is what the oracle is). P9999 answers "
             "are outside the property. No axioms.",
@@ -128,6 +134,12 @@ def search(run, info):
     sc_sets = [[("u.st", gen_sem.render(u))] for u in units] + [[("u.st", gen_sem.render(m[2]))] for m in singles] + \
               [[("u.st", gen_sem.render(m[2]))] for m in doubles]
     sc_n, sc_bad = scope_corr.check(run, sc_sets, info, "c02")
+    # the other rule visitors against their Coq models (facts of the resolved library), on the same units
+    rl_n, rl_bad = rules_corr.check(run, sc_sets, info, "c02")
+    # ... and on units aimed at the rules: few names, reused across units and written in varying letter case
+    aimed = [[("u.st", rules_corr.gen_unit(rng))] for _ in range(600 if run.tier == "quick" else 6000)]
+    ra_n, ra_bad = rules_corr.check(run, aimed, info, "aimed")
+    rl_n += ra_n
     # correspondence of the proved rule models with the implementation
     mcases = []
     mlines = []
@@ -182,6 +194,7 @@ def search(run, info):
         "valid_units": len(units),
         "double_faults": len(doubles),
         "scope_walks_compared_with_model": sc_n,
+        "rule_fact_streams_compared_with_model": rl_n,
         "exhaustive": False}}
 
 
